@@ -69,4 +69,26 @@ def r6_whitespace(ctx):
         o["rule"] = "R6"
 
 
-RULES = [("R1", r1_tables), ("R2", r2_consumed), ("R3", r3_position), ("R4", r4_who_writes), ("R5", r5_whole_writes), ("R6", r6_whitespace)]
+def r7_conversions_keep_the_kind(ctx):
+    """Events are written by value, so a caller that holds one by reference writes `event.borrow()`, and one that
+    keeps events writes `into_owned()`: both conversions map every variant to the same variant (Comment and DocType
+    carry the same payload type, so the compiler does not notice a swap)."""
+    for cfg, F in ctx.facts.items():
+        evs = F.variants("events::Event")
+        for fn in ("borrow", "into_owned"):
+            b = ctx.body(F, "events::Event::" + fn, "R7")
+            if b is None:
+                continue
+            rows = {}
+            for p in ctx.paths(b):
+                r = ret_of(p)
+                if ends(p) != "ret" or r is None:
+                    continue
+                d = decision_on(p, lambda t: t[0] == "discr" and root_of(t[1])[0] == "arg" and root_of(t[1])[1] == 1)
+                if not isinstance(d, int):
+                    continue
+                rows[evs[d]] = r[2] if r[0] == "agg" else sym.show(r, 1)
+            ctx.ob("R7", "Event::%s:diagonal" % fn, len(rows) == len(evs) and all(k == v for k, v in rows.items()), "every variant converts to itself: %s" % {k: v for k, v in rows.items() if k != v}, config=cfg)
+
+
+RULES = [("R1", r1_tables), ("R2", r2_consumed), ("R3", r3_position), ("R4", r4_who_writes), ("R5", r5_whole_writes), ("R6", r6_whitespace), ("R7", r7_conversions_keep_the_kind)]
